@@ -517,7 +517,8 @@ _PREFIX_PTS = {}
 
 def prefix_points(g):
     """Subgroup points one of whose coordinates (as a 48-byte big-endian string) starts with the leading 16 bits of the
-    modulus or with 16 zero bits; found once by search (tools/find_prefix_points.py), recomputed here as [k]g and the
+    modulus or with 16 zero bits, or whose y-coordinate (a component of it) starts with the leading 16 bits of (q-1)/2,
+    the threshold of the sort flag; found once by search (tools/find_prefix_points.py), recomputed here as [k]g and the
     class re-derived from the coordinates. Returns [(tag, point)]."""
     if g not in _PREFIX_PTS:
         import json, os
@@ -529,7 +530,10 @@ def prefix_points(g):
             for k in ks:
                 P = c.mul(k, gen)
                 comps = [P[0], P[1]] if g == 1 else [P[0][1], P[0][0], P[1][1], P[1][0]]
+                half = ((Q - 1) // 2) >> 368      # leading 16 bits of the sort-flag threshold (y coordinates only)
+                ny = 1 if g == 1 else 2
                 tags = [("hi" if (v >> 368) == (Q >> 368) else "lo") for v in comps if (v >> 368) in (0, Q >> 368)]
+                tags += ["half" for v in comps[ny:] if (v >> 368) == half]
                 assert tags, "prefix_points.json does not match the model"
                 out.append(("enc-" + tags[0], P))
         _PREFIX_PTS[g] = out
